@@ -774,8 +774,10 @@ func (g *GoFakeS3) copyObject(bucket, object string, meta map[string]string, w h
 	if srcObj.VersionID != "" {
 		w.Header().Set("x-amz-copy-source-version-id", string(srcObj.VersionID))
 	}
-	if srcObj.VersionID != "" {
-		w.Header().Set("x-amz-version-id", string(srcObj.VersionID))
+	// x-amz-version-id names the version this copy created, not the one it
+	// was copied from:
+	if result.VersionID != "" {
+		w.Header().Set("x-amz-version-id", string(result.VersionID))
 	}
 
 	return g.xmlEncoder(w).Encode(result)
